@@ -122,16 +122,23 @@ class Post(object):
                 plot_params_2d(inp, 'par1', 'par2', output_dir=p, select_format=sel, format='png', log_x=False, log_y=False)
             plt.close('all')
             return sorted(os.listdir(p))          # one figure per source (the rendering itself is not compared)
-        if fname == 'plot':
+        if fname in ('plot', 'plot:convolved', 'plot:individual'):
             import matplotlib.pyplot as plt
-            figs = plot(inp, output_dir=None, select_format=sel)
+            kwp = {'plot': {}, 'plot:convolved': dict(show_convolved=True), 'plot:individual': dict(plot_mode='I', sed_type='largest')}[fname]
+            figs = plot(inp, output_dir=None, select_format=sel, **kwp)
             plt.close('all')
             return figures_canon(figs)
+        if fname == 'plot:files':
+            import matplotlib.pyplot as plt
+            p = self.path('pl')
+            plot(inp, output_dir=p, select_format=sel, show_convolved=True, format='png', dpi=20)
+            plt.close('all')
+            return sorted(os.listdir(p))          # one figure per source (the rendering itself is not compared)
         raise KeyError(fname)
 
 
 def same_output(fname, a, b):
-    if fname == 'plot':
+    if fname in ('plot', 'plot:convolved', 'plot:individual'):
         return same_figs(a, b)
     if fname == 'filter_output':
         if [len(x) for x in a] != [len(x) for x in b]:
@@ -154,7 +161,7 @@ def run(ctx):
     ctx.assume('records are compared bit-exact NaN-aware with an independent Fitter(...).fit on the same line',
                'a run that writes no record is not generated (zero-byte file: nothing claimed)', 'filter_output is not driven on files holding a record with zero selected fits (no best chi^2 to classify)', 'plot_params_1d/2d (PNG renderers) are driven in the thorough tier only: files produced and unchanged inputs are compared, not the rendering')
     ctx.require_events('trace:fit-run', 'record:compared', 'meta:compared', 'forms:file-vs-list', 'forms:file-vs-object', 'sequence:compared', 'unchanged:checked', 'sequence:written-then-read')
-    ctx.require_regimes('list-from-two-reads')
+    ctx.require_regimes('list-from-two-reads', 'post:plot-with-stored-predictions')
     ctx.require_regimes('skipped-sources', 'output_convolved', 'no-output_convolved', 'mode:2d', 'mode:3d', 'style:v1', 'style:v2',
                         'first-line-ineligible', 'short-line-ends-input', 'duplicate-source-name')
     n_runs = 5 if ctx.quick else 16
@@ -384,7 +391,11 @@ def run(ctx):
         if has_empty:
             ctx.regime('empty-record')
         run_funcs = [f for f in funcs if not (f == 'filter_output' and has_empty)]   # no best chi^2 to classify: outside C18/C10
-        seq_funcs = [f for f in run_funcs if not f.startswith('plot_params')]           # (renderers only in the three-forms block: ~1 s per call)
+        run_funcs = run_funcs + ['plot:individual']
+        if oc:        # options that use the predicted fluxes stored with the fits
+            run_funcs = run_funcs + ['plot:convolved'] + ([] if ctx.quick else ['plot:files'])
+            ctx.regime('post:plot-with-stored-predictions')
+        seq_funcs = [f for f in run_funcs if not f.startswith('plot_params') and f != 'plot:files']           # (renderers only in the three-forms block: ~1 s per call)
         for fname in run_funcs:
             psel = sels[int(rng.integers(len(sels)))]
             # fresh in-memory results for each comparison
